@@ -20,6 +20,18 @@ Theorem C07_sort_is_a_sort : forall l : list str, Permutation l (sort l) /\ Stro
 Proof. exact sort_spec. Qed.
 Print Assumptions C07_sort_is_a_sort.
 
+(* sorted(..., key=k): canonical for EVERY key function when the key carries the exact name as tie-breaker, and not
+   canonical without it as soon as two names tie (natural sort: u7/u07, Abc/abc) *)
+Theorem C07_keyed_sort_with_tiebreak_canonical :
+  forall (k : str -> str) l1 l2, Permutation l1 l2 -> gsort (pair_leb k) l1 = gsort (pair_leb k) l2.
+Proof. exact keyed_sort_with_tiebreak_canonical. Qed.
+Print Assumptions C07_keyed_sort_with_tiebreak_canonical.
+
+Theorem C07_keyed_sort_without_tiebreak_refuted :
+  exists l1 l2, Permutation l1 l2 /\ gsort (key_leb natkey) l1 <> gsort (key_leb natkey) l2.
+Proof. exact keyed_sort_without_tiebreak_refuted. Qed.
+Print Assumptions C07_keyed_sort_without_tiebreak_refuted.
+
 (* (b) order-irrelevance where the code does not sort: same children per namespace, same multiset of generated
    items, whatever the iteration order of namespace_index / _nested_namespaces *)
 Theorem C07_tree_children_order_irrelevant :
@@ -66,6 +78,11 @@ Theorem C07_all_set_iterations_modelled :
   forallb (fun x => snd x || set_site_modelled (fst x)) gen_set_iters = true.
 Proof. vm_compute. reflexivity. Qed.
 Print Assumptions C07_all_set_iterations_modelled.
+
+(* every sorted()/sort() call with a key= in the Python sources has a tie-breaking key *)
+Theorem C07_all_keyed_sorts_total : forallb (fun x => snd x) gen_sorts = true.
+Proof. vm_compute. reflexivity. Qed.
+Print Assumptions C07_all_keyed_sorts_total.
 
 Theorem C07_all_ambient_reads_modelled :
   forallb (fun x => read_site_modelled (snd x)) gen_ambient_reads = true.
@@ -157,6 +174,22 @@ Theorem C07_unsorted_namespace_iteration_refuted :
     <> files _ facts_all_true tbl_nsiter render0 e2 (mk_cfg LPy false) I p.
 Proof. exact unsorted_namespace_iteration_refuted. Qed.
 Print Assumptions C07_unsorted_namespace_iteration_refuted.
+
+(* F-HTML-NATSORT-TIE (fixed in /repo): what the natural sort without tie-breaker did, and template_sets reporting
+   resolved template directories in an ungated banner *)
+Theorem C07_natsort_tie_refuted :
+  exists I e1 e2 p,
+    files _ facts_natsort_ties [] render0 e1 (mk_cfg LHtml false) I p
+    <> files _ facts_natsort_ties [] render0 e2 (mk_cfg LHtml false) I p.
+Proof. exact natsort_tie_refuted. Qed.
+Print Assumptions C07_natsort_tie_refuted.
+
+Theorem C07_template_sets_paths_refuted :
+  exists I e1 e2 p,
+    files _ facts_tmplsets_paths tbl_tmplsets render0 e1 (cfg_user_templates LCpp) I p
+    <> files _ facts_tmplsets_paths tbl_tmplsets render0 e2 (cfg_user_templates LCpp) I p.
+Proof. exact template_sets_paths_refuted. Qed.
+Print Assumptions C07_template_sets_paths_refuted.
 
 (* with --embed-auditing-info the files may differ: the premise is needed, and the model says so *)
 Theorem C07_audit_on_may_differ :
